@@ -506,3 +506,113 @@ def exhaustive_small(widths=(1, 2), ops=None):
                     for c2 in range(1 << w):
                         x = ("bvs", "x%d" % w, w)
                         yield "exh2", (op2, (op1, x, ("bvv", c1, w)), ("bvv", c2, w))
+
+
+# ------------------------------------------------------------------ extension idioms (C09 round 5)
+def ext_idiom(bit_src, i, k, val_src, hi, lo):
+    """k copies of ONE bit bit_src[i:i] in front of the slice val_src[hi:lo] (the whole source when hi:lo spans it): the shape in
+    which Z3 prints sign_extend — a genuine sign extension only when bit_src is val_src and i == hi"""
+    wv = val_src[2]
+    val = val_src if (lo == 0 and hi == wv - 1) else ("extract:%d:%d" % (hi, lo), val_src)
+    return ("concat",) + (("extract:%d:%d" % (i, i), bit_src),) * k + (val,)
+
+
+def ext_idiom_class(same_src, i, hi, lo):
+    """predicate class of an extension idiom (for finding signatures)"""
+    if not same_src:
+        return "bit-of-another-source"
+    if i == hi:
+        return "sign-bit-of-the-slice"
+    if i == hi - lo and lo > 0:
+        return "bit-at-slice-width-minus-one-of-an-offset-slice"
+    if lo <= i < hi:
+        return "inner-bit-of-the-slice"
+    return "bit-outside-the-slice"
+
+
+def ext_idioms_all(W, ks=(1, 2), names=("x", "y")):
+    """every (class, tree) of the family at source width W: sign-extension look-alikes for ALL i, hi, lo (one and two sources),
+    mixed bits, zero/one fills, and the explicit sext/zext of every slice"""
+    x, y = ("bvs", "%s%d" % (names[0], W), W), ("bvs", "%s%d" % (names[1], W), W)
+    for hi in range(W):
+        for lo in range(hi + 1):
+            sl = x if (lo == 0 and hi == W - 1) else ("extract:%d:%d" % (hi, lo), x)
+            for k in ks:
+                for i in range(W):
+                    yield ext_idiom_class(True, i, hi, lo), ext_idiom(x, i, k, x, hi, lo)
+                    if k == ks[0] and (i in (hi, hi - lo, lo) or i == W - 1):
+                        yield ext_idiom_class(False, i, hi, lo), ext_idiom(y, i, k, x, hi, lo)
+                yield "zero-fill", ("concat", ("bvv", 0, k), sl)
+                yield "one-fill", ("concat", ("bvv", (1 << k) - 1, k), sl)
+                yield "explicit-sext", ("sext:%d" % k, sl)
+                yield "explicit-zext", ("zext:%d" % k, sl)
+            # two DIFFERENT bits in front (every bit of a sign extension is the same bit)
+            for i, j in ((hi, hi - lo), (hi - lo, hi), (hi, lo)):
+                if i != j:
+                    yield "mixed-bits", ("concat", ("extract:%d:%d" % (i, i), x), ("extract:%d:%d" % (j, j), x), sl)
+
+
+def ext_idiom_random(rng, W=None):
+    """one member of the family at a random width, optionally under an arithmetic/logical wrapper"""
+    W = W or rng.choice([3, 4, 5, 6, 8])
+    x, y = ("bvs", "x%d" % W, W), ("bvs", "y%d" % W, W)
+    hi = rng.randrange(W)
+    lo = rng.randrange(hi + 1)
+    k = rng.choice([1, 1, 2, 3, 8])
+    same = rng.random() < 0.8
+    i = rng.choice([hi, hi - lo, hi - lo, lo, rng.randrange(W)])
+    t = ext_idiom(x if same else y, i, k, x, hi, lo)
+    cls = ext_idiom_class(same, i, hi, lo)
+    w = k + hi - lo + 1
+    r = rng.random()
+    if r < 0.2:
+        t = ("add", t, const(rng, w))
+    elif r < 0.3:
+        t = ("xor", t, ("zext:%d" % (w - 1), ("extract:0:0", y))) if w > 1 else t
+    elif r < 0.4:
+        t = (rng.choice(["ult", "sle", "eq"]), t, const(rng, w))
+    elif r < 0.5:
+        t = ("extract:%d:%d" % (w - 1, rng.randrange(w)), t)
+    return cls, t
+
+
+# ------------------------------------------------------------------ shapes only the SOLVER's simplifier rewrites (C05 round 5)
+def z3_rewritable(rng, w=None):
+    """(name, tree): expressions claripy's own construction-time simplifiers leave as written but Z3's simplifier turns into another
+    shape — a leaf, a constant, or a smaller non-leaf: cancelling sums, complementary masks, x ^ y ^ x across nesting, slices of a
+    concatenation padded with a vanishing term, re-joined halves, absorbed conditionals"""
+    w = w or rng.choice([2, 3, 4, 8, 16, 32])
+    x, y, z = ("bvs", "x%d" % w, w), ("bvs", "y%d" % w, w), ("bvs", "z%d" % w, w)
+    x, y, z = rng.sample([x, y, z], 3)
+    m = ("bvv", rng.randrange(1, 1 << w), w)
+    zero_times = lambda v: ("mul", ("bvv", 0, w), v)  # noqa: E731
+    rest = rng.choice([None, None, ("mul", z, z), ("xor", z, m), z])
+    cut = rng.randrange(1, w) if w > 1 else 1
+    shapes = [
+        ("Z.add_sub_cancel", lambda: ("sub", ("add", x, y), y)),
+        ("Z.double_minus_twice", lambda: ("sub", ("sub", ("mul", x, ("bvv", 2 % (1 << w), w)), x), x)),
+        ("Z.sum3_minus_sum2", lambda: ("sub", ("add", x, y, z), ("add", z, y))),
+        ("Z.and_complement", lambda: ("and", ("or", x, y), ("not", ("or", x, y)))),
+        ("Z.or_complement", lambda: ("or", ("xor", x, y), ("not", ("xor", x, y)))),
+        ("Z.xor_cancel_across", lambda: ("xor", ("xor", x, y), ("add", x, zero_times(z)))),
+        ("Z.split_masks", lambda: ("or", ("and", x, m), ("and", x, ("not", m)))),
+        ("Z.add_neg", lambda: ("add", ("add", x, y), ("neg", x))),
+        ("Z.extract_of_concat", lambda: ("add", ("extract:%d:0" % (w - 1), ("concat", x, y)), zero_times(z))),
+        ("Z.high_extract_of_concat", lambda: ("xor", ("extract:%d:%d" % (2 * w - 1, w), ("concat", x, y)), ("sub", z, z))),
+        ("Z.rejoined_halves", lambda: ("add", ("concat", ("extract:%d:%d" % (w - 1, cut), x), ("extract:%d:0" % (cut - 1), x)), zero_times(y)) if w > 1 else ("sub", ("add", x, y), y)),
+        ("Z.ite_same_after_rewrite", lambda: ("ite", ("ult", y, z), ("sub", ("add", x, y), y), ("add", x, zero_times(z)))),
+        ("Z.distribute_cancel", lambda: ("sub", ("mul", ("add", x, ("bvv", 1, w)), m), ("mul", x, m))),
+        ("Z.shift_pair", lambda: ("sub", ("shl", x, ("bvv", 1 % (1 << w), w)), ("add", x, x)) if w > 1 else ("sub", ("add", x, y), y)),
+        ("Z.not_not_sum", lambda: ("sub", ("not", ("not", ("add", x, y))), x)),
+        ("Z.zext_of_cancel", lambda: ("zext:%d" % rng.choice([1, 8]), ("sub", ("add", x, y), y))),
+    ]
+    name, f = rng.choice(shapes)
+    t = f()
+    if rest is not None and E_width(t) == w:
+        t = ("add", t, rest) if rng.random() < 0.5 else ("xor", rest, t)
+    return name, t
+
+
+def E_width(t):
+    from lib import exprs as E
+    return E.width(t)
